@@ -27,6 +27,7 @@ const (
 	ANonNil
 	ANonEmpty // slice known to hold at least one element (result of append)
 	ANonZero  // integer known to differ from zero (len of a non-empty slice)
+	AMaxInt   // the largest value of its integer type (sentinel of a minimum search)
 )
 
 type AbsVal struct {
@@ -36,7 +37,7 @@ type AbsVal struct {
 }
 
 func (a AbsVal) String() string {
-	s := [...]string{"?", "true", "false", "nil", "nonnil", "nonempty", "nonzero"}[a.K]
+	s := [...]string{"?", "true", "false", "nil", "nonnil", "nonempty", "nonzero", "maxint"}[a.K]
 	if a.Fn != nil {
 		s += ":" + a.Fn.Name()
 	}
@@ -278,6 +279,27 @@ func (s *Spec) walkBlock(fr *Frame, b *ssa.BasicBlock, pred *ssa.BasicBlock, st 
 			return // loop bound: abandon this path
 		}
 		st.visits[b]++
+		// φ-nodes are evaluated in parallel against the state of the predecessor (a loop-carried
+		// φ may refer to itself or to another φ of the same block)
+		var phiVals map[*ssa.Phi]AbsVal
+		if pred != nil {
+			for pi, pb := range b.Preds {
+				if pb != pred {
+					continue
+				}
+				for _, in := range b.Instrs {
+					ph, isPhi := in.(*ssa.Phi)
+					if !isPhi {
+						break
+					}
+					if phiVals == nil {
+						phiVals = map[*ssa.Phi]AbsVal{}
+					}
+					phiVals[ph] = s.abs(ph.Edges[pi], st)
+				}
+				break
+			}
+		}
 		if st.visits[b] > 1 {
 			// values are recomputed on re-entry
 			for v := range st.decided {
@@ -296,19 +318,15 @@ func (s *Spec) walkBlock(fr *Frame, b *ssa.BasicBlock, pred *ssa.BasicBlock, st 
 				}
 			}
 		}
+		for ph, v := range phiVals {
+			st.env[ph] = v
+		}
 	}
 	for i := start; i < len(b.Instrs); i++ {
 		in := b.Instrs[i]
 		switch x := in.(type) {
 		case *ssa.Phi:
-			if pred != nil {
-				for pi, pb := range b.Preds {
-					if pb == pred {
-						st.env[x] = s.abs(x.Edges[pi], st)
-						break
-					}
-				}
-			}
+			_ = x // evaluated on block entry (in parallel)
 			continue
 		case *ssa.If:
 			s.doIf(fr, b, x, st, emit)
@@ -494,6 +512,13 @@ func (s *Spec) abs(v ssa.Value, st *walkState) AbsVal {
 			}
 			return AbsVal{K: AFalse}
 		}
+		if k, ok := constInt(x); ok {
+			if b, isB := x.Type().Underlying().(*types.Basic); isB {
+				if (b.Kind() == types.Int32 && k == math.MaxInt32) || ((b.Kind() == types.Int64 || b.Kind() == types.Int) && k == math.MaxInt64) {
+					return AbsVal{K: AMaxInt}
+				}
+			}
+		}
 		return AbsVal{}
 	case *ssa.Function:
 		return AbsVal{K: ANonNil, Fn: x}
@@ -530,13 +555,10 @@ func (s *Spec) abs(v ssa.Value, st *walkState) AbsVal {
 		}
 	case *ssa.BinOp:
 		if x.Op == token.LSS {
-			// v < MaxOfItsType holds for every value a counter realistically takes (sentinel minimum search)
-			if k, ok := constInt(x.Y); ok {
-				if b, isB := x.X.Type().Underlying().(*types.Basic); isB {
-					if (b.Kind() == types.Int32 && k == math.MaxInt32) || (b.Kind() == types.Int64 || b.Kind() == types.Int) && k == math.MaxInt64 {
-						return AbsVal{K: ATrue}
-					}
-				}
+			// v < MaxOfItsType holds for every value a counter realistically takes (sentinel minimum
+			// search); the sentinel may reach the comparison through a loop-carried φ
+			if s.abs(x.Y, st).K == AMaxInt && s.abs(x.X, st).K != AMaxInt {
+				return AbsVal{K: ATrue}
 			}
 		}
 		if x.Op == token.EQL || x.Op == token.NEQ {
